@@ -305,6 +305,8 @@ def run(c, prog):
     _C16.rule_sername(core.Alias(c, "C06"), prog, _dbm.Database())     # two canonical properties written under one name lose a value
     rule_desc(c, prog)
     rule_conv(c, prog)
+    common.rule_writer_total(core.Alias(c, "C06"), prog, "C02.total", "xml")     # the two encodings can only be equivalent where both exist
+    common.rule_writer_total(core.Alias(c, "C06"), prog, "C01.total", "binary")
     # equivalence of the two decodings needs each codec's own round trip: the shared clauses are re-checked under C06
     from . import C01_alg, C01_arm, C02, C07
     a = core.Alias(c, "C06")
